@@ -34,7 +34,12 @@ RULE = (
     "+ one below min + one above max via intersect/get(list)/get(array)/front end, integer steps {1,2,5,20} and the default, "
     "every L-Measure item of the statement at every node / branch / bifurcation, and the extract_feature front end for all 13 "
     "feature names in single, tuple, list and dict form. populations: every ordered pair and triple of 6 trees of different sizes "
-    "x all feature names (zero-padded rows; shared Sholl radii). Non-trivial = tree with >= 2 nodes; distinct = (parent table, geometry)."
+    "x all feature names (zero-padded rows; shared Sholl radii). query-edit-query: every ST(n) up to the bound x every admissible single "
+    "re-parenting and every single node move, applied in place through a node handle / the column array / on a copy after all queries "
+    "were warmed: full oracle before and after (and on the untouched original). call-histories: all ordered A,B and A,B,A sequences over "
+    "6 trees (same shape other coordinates, same coordinates other shape, unsorted, one node), answers retained across later calls. "
+    "every-size: chain, star, heap, caterpillar of EVERY size 1..bound (fast-path thresholds). "
+    "Non-trivial = tree with >= 2 nodes; distinct = (parent table, geometry[, edit])."
 )
 ASSUMPTIONS = [
     "coordinates are exactly representable in float32 (bank values are float32-rounded, lattice values are small integers), so the "
@@ -152,24 +157,31 @@ def judge_feature(R, where, name, got, table, p, extra=""):
 
 
 def check_tree(case, R):
-    from swcgeom.analysis import Sholl, extract_feature
-    from swcgeom.analysis.features import BranchFeatures, FurcationFeatures, NodeFeatures, PathFeatures, TipFeatures
-    from swcgeom.analysis.lmeasure import LMeasure
-    from swcgeom.core import BranchTree
-
     kind, p = case[0], [int(v) for v in case[1]]
     case = (kind, p, [int(v) for v in case[2]] if kind == "lat" else int(case[2]))
     n = len(p)
     gxyz, grad = geometry(case)
     t = build.make_tree(p, xyz=gxyz, r=grad)
+    R.state(kind, p, build.tags_xyz(t))
+    if n < 2:
+        R.trivial()
+    ctx = f"{kind} p={p}" + (f" xyz={build.tags_xyz(t)}" if kind == "lat" else f" bank={case[2]}")
+    R.outcome(*oracle(R, t, p, kind, ctx))
+
+
+def oracle(R, t, p, kind, ctx):
+    """The complete definitional oracle on the tree object t, whose CURRENT content is parent list p and the
+    coordinates its columns hold.  Returns a summary of what was observed (for the outcome count)."""
+    from swcgeom.analysis import Sholl, extract_feature
+    from swcgeom.analysis.features import BranchFeatures, FurcationFeatures, NodeFeatures, PathFeatures, TipFeatures
+    from swcgeom.analysis.lmeasure import LMeasure
+    from swcgeom.core import BranchTree
+
+    n = len(p)
     xyz = build.tags_xyz(t)
     snap = build.snapshot(t)
     unique_pts = len(set(xyz)) == n
-    R.state(kind, p, xyz)
-    if n < 2:
-        R.trivial()
     ch = ref.children(p)
-    ctx = f"{kind} p={p}" + (f" xyz={xyz}" if kind == "lat" else f" bank={case[2]}")
     margin = tie_margin(xyz)
     table = ref_features(p, xyz)
     L = table["length"][1][0]
@@ -279,8 +291,13 @@ def check_tree(case, R):
     # ---- D. Sholl
     sholl_obs = ()
     radii = RF.sholl_midgap_radii(p, xyz)
+    if kind in ("gen", "gens", "lat"):  # banks are built so that this cannot happen: a tie here is a harness bug
+        assert not any(RF.sholl_tie(p, xyz, r, 4 * margin) for r in radii), "harness: mid-gap radius ties with a node"
+    else:
+        keep = [r for r in radii if not RF.sholl_tie(p, xyz, r, 4 * margin)]
+        R.skip("sholl-node-on-sphere", len(radii) - len(keep))
+        radii = keep
     want_counts = [RF.sholl_count(p, xyz, r) for r in radii]
-    assert not any(RF.sholl_tie(p, xyz, r, 4 * margin) for r in radii), "harness: mid-gap radius ties with a node"
     if n >= 2:
         ok, sh = R.impl("Sholl", Sholl, t)
         if ok:
@@ -383,9 +400,24 @@ def check_tree(case, R):
         ok2, v = R.impl("front.get(tuple)", fe.get, ("length", {}))
         if ok2 and "length" in singles:
             R.check(flt(v) == singles["length"], "front:tuple-form", lambda: f"{ctx}: get(('length', {{}})) = {flt(v)}")
+        # the caller owns what it was given: scribbling over a returned array must not change the next answer
+        for name in names:
+            ok2, a = R.impl(f"front.get({name})", fe.get, name)
+            if ok2 and isinstance(a, np.ndarray) and a.flags.writeable and a.size:
+                a += 7
+                ok3, b = R.impl(f"front.get({name}) again", fe.get, name)
+                if ok3:
+                    R.check(flt(b) == singles[name], "front:result-aliases-state", lambda: f"{ctx}: after the caller edited the array returned for {name}, "
+                            f"the next get gives {flt(b)} instead of {singles[name]}", f"front:result-aliases-state:{name}")
+        if hasattr(R, "retain"):  # answers already handed out must not change because of later library calls
+            for name in ("node_radial_distance", "branch_length", "path_tortuosity"):
+                if name in singles:
+                    ok2, a = R.impl(f"front.get({name})", fe.get, name)
+                    if ok2:
+                        R.retain(f"front.get({name})", lambda a=a: a)
 
     R.check(build.snapshot(t) == snap, "input-modified", lambda: f"{ctx}: the tree was modified by feature evaluation")
-    R.outcome(len(ref.tips(p)), len(ref.furcations(p)), len(ref_br), sholl_obs, round(L, 3))
+    return len(ref.tips(p)), len(ref.furcations(p)), len(ref_br), sholl_obs, round(L, 3)
 
 
 def tie_margin(xyz):
@@ -445,12 +477,106 @@ def check_bifurcation(R, lm, t, ctx, p, xyz, b):
                     lambda: f"{ctx} bifurcation {b}: {nm} = {float(v)} want {want[0]} or {want[1]}")
 
 
+# ------------------------------------------------------------------ histories: query, edit in place, query again
+
+
+def check_edit(case, R):
+    """Every query API is warmed on the tree as built (and judged); then one node is re-parented or moved IN PLACE
+    (through a node handle, through the column array, or on a copy) and the complete oracle must hold for the
+    CURRENT content of every object involved: caches keyed by object identity / never invalidated show up here."""
+    p, bank_k, edit = [int(v) for v in case[1]], int(case[2]), list(case[3])
+    n = len(p)
+    t = build.make_tree(p, bank_k=bank_k)
+    R.state(p, bank_k, edit)
+    ctx = f"edit {edit} of p={p} bank={bank_k}"
+    oracle(R, t, p, "gen", ctx + " [as built]")
+    if edit[0] == "rp":
+        obj, q, other, op = build.apply_reparent(t, p, (int(edit[1]), int(edit[2]), edit[3]))
+        moved = None
+    else:
+        i, how = int(edit[1]), edit[2]
+        moved = (i, build.bank(bank_k, 12)[n][0])  # an unused point of the same tie-free bank
+        obj, q, other, op = t, list(p), None, None
+        if how == "copy-then-handle":
+            obj, other, op = t.copy(), t, list(p)
+        for k, col in enumerate("xyz"):
+            if how == "column":
+                obj.get_ndata(col)[i] = moved[1][k]
+            else:
+                setattr(obj.node(i), col, moved[1][k])
+    want_xyz = build.generic_geometry(n, bank_k)[0]
+    new_xyz = [moved[1] if moved and i == moved[0] else want_xyz[i] for i in range(n)]
+    visible = [int(v) for v in obj.pid().tolist()] == q and build.tags_xyz(obj) == new_xyz
+    if not R.check(visible, "edit-not-visible", lambda: f"{ctx}: the edit is not visible in the object's own columns (C09's subject)"):
+        return
+    out = oracle(R, obj, q, "gen", ctx + " [after the edit]")
+    if other is not None:
+        oracle(R, other, op, "gen", ctx + " [the original, after its copy was edited]")
+    R.outcome(q, out)
+
+
+HIST_TREES = [
+    ((-1, 0, 0, 1, 1), 0),
+    ((-1, 0, 0, 1, 1), 1),       # same numbering and shape, other coordinates
+    ((-1, 0, 1, 1, 2), 0),       # same size and coordinates, other shape
+    ((-1, 2, 0), 0),             # smaller, unsorted numbering
+    ((-1, 0, 0, 1, 1, 2, 2), 2),
+    ((-1,), 3),
+]
+
+
+def check_history(case, R):
+    """The analysis entry points used on tree A, then B, (then A again - the same object): every answer is judged
+    when returned, some are retained and re-inspected after the later calls."""
+    sel = [int(v) for v in case[1]]
+    R.state(sel)
+    objs, outs = {}, []
+    for pos, k in enumerate(sel):
+        p, bank_k = HIST_TREES[k]
+        if k not in objs:
+            objs[k] = build.make_tree(list(p), bank_k=bank_k)
+        outs.append(oracle(R, objs[k], list(p), "gen", f"history {sel} step {pos} (tree {k}: p={list(p)} bank={bank_k})"))
+    R.outcome(sel, outs)
+
+
+# ------------------------------------------------------------------ every size (thresholds / fast paths)
+
+SHAPES = ("chain", "star", "heap", "caterpillar")
+
+
+def shape(name, n):
+    if name == "chain":
+        return [-1] + list(range(n - 1))
+    if name == "star":
+        return [-1] + [0] * (n - 1)
+    if name == "heap":
+        return [-1] + [(i - 1) // 2 for i in range(1, n)]
+    return [-1] + [i - 1 if i % 2 else i - 2 for i in range(1, n)]
+
+
+def lcg_points(n, seed):
+    g = build._lcg(seed)
+    return [tuple(build.f32(round((next(g) - 0.5) * 20, 2)) for _ in range(3)) for _ in range(n)]
+
+
+def check_size(case, R):
+    name, n, bank_k = case[1], int(case[2]), int(case[3])
+    p = shape(name, n)
+    xyz = lcg_points(n, 77 + bank_k)
+    t = build.make_tree(p, xyz=xyz, r=[0.5] * n)
+    R.state(name, n, bank_k)
+    if n < 2:
+        R.trivial()
+    R.outcome(name, n, oracle(R, t, p, "lcg", f"{name} tree with {n} nodes (points lcg({77 + bank_k}))"))
+
+
 # ------------------------------------------------------------------ populations
 
 POP_TREES = [
+    ((-1,), 2),
     ((-1, 0), 0),
     ((-1, 0, 0), 1),
-    ((-1, 0, 1, 1), 2),
+    ((-1, 2, 0, 2), 2),  # unsorted numbering of (-1, 0, 1, 1)
     ((-1, 0, 0, 1, 1), 3),
     ((-1, 0, 1, 1, 2, 2), 0),
     ((-1, 0, 0, 1, 1, 2, 2), 1),
@@ -501,6 +627,11 @@ def check_population(case, R):
                         f"population:row-vs-single:{name}")
     # Sholl: one shared radius grid for every tree of the population
     for what, kw, radii in (("list", {"steps": list(POP_RADII)}, POP_RADII), ("default", {}, None), ("int", {"steps": 5}, None)):
+        if any(len(p) < 2 for p in ps):
+            # Sholl of a one-node tree is not asserted (see ASSUMPTIONS); the population request then raises as well
+            R.attempt(lambda: fe.get("sholl", **kw))
+            R.note("population-sholl-with-one-node-tree")
+            continue
         if radii is None:
             k = kw.get("steps", 20)
             rmax = max(max(tb["node_radial_distance"][1]) for tb in tables)
@@ -564,15 +695,50 @@ def spaces(tier, seed):
         if tier == "thorough":
             for sel in itertools.permutations(idx, 4):
                 yield ("pop", sel)
-        yield ("pop", (0,))
-        yield ("pop", (3, 3))
+        yield ("pop", (1,))
+        yield ("pop", (4, 4))
+
+    ed_hi = 5 if tier == "quick" else 6
+    size_hi = 48 if tier == "quick" else 160
+
+    def gen_edit():
+        for n in range(2, ed_hi + 1):
+            for p in S.sorted_trees(n):
+                for (i, j) in build.reparent_edits(p):
+                    for how in build.EDIT_HOWS:
+                        yield ("edit", p, bank_k, ("rp", i, j, how))
+                for i in range(n):
+                    for how in build.EDIT_HOWS:
+                        yield ("edit", p, bank_k, ("mv", i, how))
+
+    def gen_hist():
+        idx = range(len(HIST_TREES))
+        for a, b in itertools.permutations(idx, 2):
+            yield ("hist", (a, b))
+            yield ("hist", (a, b, a))
+        if tier == "thorough":
+            for a, b, c in itertools.permutations(idx, 3):
+                yield ("hist", (a, b, c))
+
+    def gen_size():
+        for n in range(1, size_hi + 1):
+            for name in SHAPES:
+                if n < 3 and name != "chain":
+                    continue
+                yield ("size", name, n, bank_k)
 
     return [
+        Space.of("query-edit-query", gen_edit, check_edit,
+                 bounds={"ST_max_nodes": ed_hi, "edits": "every single re-parenting that keeps the tree well-formed; every node moved to an unused bank point",
+                         "how": list(build.EDIT_HOWS), "bank": bank_k}),
+        Space.of("call-histories", gen_hist, check_history,
+                 bounds={"trees": [list(p) for p, _ in HIST_TREES], "sequences": "all ordered pairs A,B and A,B,A (thorough: all ordered triples)"}),
+        Space.of("every-size", gen_size, check_size, bounds={"shapes": list(SHAPES), "nodes": [1, size_hi], "every_n": True, "points": "lcg, not tie-free: ties skipped"}),
         Space.of("trees-generic", gen_generic, check_tree,
                  bounds={"ST_max_nodes": st_hi, "ST_max_nodes_shrunk_bank(x1/32)": small_hi, "LT_unsorted_max_nodes": lt_hi, "bank": bank_k, "sholl_radii": "all mid-gaps, one below, one above", "steps": list(STEP_COUNTS) + ["default"]}),
         Space.of("binary-trees", gen_binary, check_tree, bounds={"BT_nodes": [st_hi + 1, bt_hi], "bank": bank_k}),
         Space.of("trees-lattice", gen_lattice, check_tree,
                  bounds={"ST_max_nodes_full_menu": lat_full, "ST_max_nodes_menu_0..2": lat_small, "displacement_menu": LAT_DISP, "root": LAT_ROOT}),
         Space.of("populations", gen_pop, check_population,
-                 bounds={"trees": [list(p) for p, _ in POP_TREES], "ordered_selections": "all pairs and triples of distinct trees, one singleton, one repeated pair", "radii": POP_RADII}),
+                 bounds={"trees": [list(p) for p, _ in POP_TREES], "ordered_selections": "all pairs and triples (thorough: quadruples) of distinct trees, one singleton, one repeated pair", "radii": POP_RADII}),
     ]
